@@ -25,7 +25,8 @@ RuleCalls(s) ==
     \cup {[m |-> "are_named", filters |-> {[kind |-> "named", name |-> ArgName(s)]}, nomatch |-> FALSE],
           [m |-> "are_sub_modules_of", filters |-> {[kind |-> "sub", name |-> ArgName(s)]}, nomatch |-> FALSE],
           [m |-> "have_name_matching", filters |-> {[kind |-> "named", name |-> ArgName(s)]}, nomatch |-> FALSE],
-          [m |-> "have_name_containing", filters |-> {[kind |-> "named", name |-> ArgName(s)]}, nomatch |-> FALSE]}
+          [m |-> "have_name_containing", filters |-> {[kind |-> "named", name |-> ArgName(s)]}, nomatch |-> FALSE],
+          [m |-> "are_named", filters |-> {}, nomatch |-> FALSE]}          \* an empty list: nothing was specified
 
 ArchCalls ==
     {[m |-> "with_layer"], [m |-> "layer", name |-> "L1"], [m |-> "layer", name |-> "L2"],
@@ -80,9 +81,11 @@ RuleStateIsHistory ==
     Which = "rule" =>
       /\ st.verbs = {M(i) : i \in {i \in Accepted : M(i) \in VerbMethods}}
       /\ (st.dir = "unset") = ({i \in Accepted : M(i) \in ImportMethods} = {})
-      /\ (st.subs = {}) = ~(\E i \in Accepted : M(i) \in ListMethods
+      /\ LET SubjIdx == {i \in Accepted : M(i) \in ListMethods
                                /\ \E k \in 1..(i-1) : M(k) = "modules_that"
-                                     /\ \A q \in (k+1)..(i-1) : M(q) \notin ImportMethods \cup {"modules_that"})
+                                     /\ \A q \in (k+1)..(i-1) : M(q) \notin ImportMethods \cup {"modules_that"}}
+             last == CHOOSE i \in SubjIdx : \A k \in SubjIdx : k <= i
+         IN (st.subs = {}) = (SubjIdx = {} \/ hist[last].c.filters = {})      \* the last subject list wins; an empty one specifies nothing
       /\ \A i \in DOMAIN hist : (M(i) \in ListMethods /\ hist[i].out = "error") =>
                                     ~\E k \in 1..(i-1) : M(k) \in ImportMethods \cup {"modules_that"}
 \* Rule: a state that must not error has at least one verdict on every architecture; one that must error has none
